@@ -228,7 +228,7 @@ Definition end_block_gen (fx fe ft : bool) (p : params) (st : state) (h : Z) : o
     kept sorted by voter id = store order), Prevotes (voter, submit block). *)
 Record hstate := mkHS { hs_rates : list rate_entry; hs_votes : list avote; hs_prevotes : list (nat * Z) }.
 
-(** what does not change along a history in this model: staking view and whitelist
+(** what the EndBlocker of one step reads from other modules: staking view and whitelist
     (params.Whitelist = WhitelistedPairs store, so refreshWhitelist is the identity) *)
 Record henv := mkHEnv {
   he_validators : list valinfo; he_maxv : nat; he_btok : Z; he_pr : Z; he_whitelist : list nat }.
@@ -274,12 +274,14 @@ Definition hist_step (fx : bool) (p : params) (e : henv) (s : hstate) (x : hstep
       else Some (mkHS rs vs pvs, evs)
   end.
 
-(** events published by each step of a history (stops at a panic) *)
-Fixpoint hist_events (fx : bool) (p : params) (e : henv) (s : hstate) (xs : list hstep) : list (list (nat * Z)) :=
+(** events published by each step of a history (stops at a panic); every step comes with the staking
+    view / whitelist read right before its EndBlocker (validators may be slashed, jailed, unbonded or join
+    between steps) *)
+Fixpoint hist_events (fx : bool) (p : params) (s : hstate) (xs : list (henv * hstep)) : list (list (nat * Z)) :=
   match xs with
   | [] => []
-  | x :: r => match hist_step fx p e s x with
-              | None => []
-              | Some (s', evs) => evs :: hist_events fx p e s' r
-              end
+  | (e, x) :: r => match hist_step fx p e s x with
+                   | None => []
+                   | Some (s', evs) => evs :: hist_events fx p s' r
+                   end
   end.
